@@ -345,46 +345,45 @@ pub fn apply_op(op: &Op, top: bool) {
             let (_loc_o, o) = hs[io];
             let nslots = wd.model.borrow().objs[o as usize].slots.len();
             let Some(j) = pick(*slot, nslots) else { return noop() };
-            let (t, rec, lp, held, loose) = {
-                let m = wd.model.borrow();
-                let t = m.objs[o as usize].slots[j];
-                (t, m.rec(o, t), if t == o { m.l.get(&o).copied().unwrap_or(0) } else { 0 }, m.held(o, t), m.objs[o as usize].loose)
-            };
-            let cap_after = held - 1;
-            let p = parents();
-            let node = resolve_node(&p, o);
-            let _ = lp;
-            let need = rec > cap_after;
-            let un = !loose
-                && rec > 0
-                && match mode {
-                    Mode::NoAdopt => false,
-                    Mode::Full => true,
-                    Mode::Elide => *unadopt,
-                    _ => *unadopt || need,
+            remove_slot(o, j, *unadopt, *keep);
+        }
+        Op::StripHandlesTo { target, unadopt, keep } => {
+            let hs = wd.model.borrow().handles();
+            let Some(it) = pick(*target, hs.len()) else { return noop() };
+            let (_, t) = hs[it];
+            let mut guard = 0;
+            loop {
+                // the first stored handle to `t` in any object the program can reach
+                let found = {
+                    let m = wd.model.borrow();
+                    m.accessible().into_iter().find_map(|o| m.objs[o as usize].slots.iter().position(|&x| x == t).map(|j| (o, j)))
                 };
-            if un {
-                let s = node.slots.borrow();
-                let slot_h = &s[j] as *const LoggedRc;
-                let ho = resolve_handle(&p, p[o as usize].unwrap());
-                do_unadopt(ho, slot_h, o, t);
-                let (_, zero) = wd.model.borrow_mut().sub_rec(o, t);
-                if zero {
-                    label(lab::UNADOPT_ZERO);
-                }
-            } else if need && !loose {
-                label(lab::ELIDED);
-                if *keep {
-                    label(lab::KEPT_AFTER_ELIDE);
+                let Some((o, j)) = found else { break };
+                remove_slot(o, j, *unadopt, *keep);
+                guard += 1;
+                if guard > 40 || wd.model.borrow().objs[t as usize].st != St::Alive {
+                    break;
                 }
             }
-            let h = node.slots.borrow_mut().remove(j);
-            h.owner.set(NONE);
-            wd.model.borrow_mut().objs[o as usize].slots.remove(j);
-            if *keep {
-                wd.model.borrow_mut().roots.push(t);
-                wd.roots.borrow_mut().push(h);
-            } else {
+            if guard == 0 {
+                noop();
+            }
+        }
+        Op::UniqueRoot(sel) => {
+            let hs = wd.model.borrow().handles();
+            let Some(i) = pick(*sel, hs.len()) else { return noop() };
+            let (_, t) = hs[i];
+            loop {
+                // drop every root of `t` but the first
+                let idx = {
+                    let m = wd.model.borrow();
+                    let mut it = m.roots.iter().enumerate().filter(|(_, &r)| r == t).map(|(k, _)| k);
+                    it.next();
+                    it.next()
+                };
+                let Some(k) = idx else { break };
+                let h = wd.roots.borrow_mut().remove(k);
+                wd.model.borrow_mut().roots.remove(k);
                 drop(h);
             }
         }
@@ -487,6 +486,55 @@ pub fn apply_op(op: &Op, top: bool) {
                 noop();
             }
         }
+    }
+}
+
+/// Take stored handle `j` out of the value of object `o`; `unadopt`: call
+/// unadopt first (forced where the mode demands it); `keep`: keep it as a
+/// root, else drop it.
+fn remove_slot(o: Oid, j: usize, unadopt: bool, keep: bool) {
+    let wd = w();
+    let mode = wd.cfg.mode;
+    let (t, rec, held, loose) = {
+        let m = wd.model.borrow();
+        let t = m.objs[o as usize].slots[j];
+        (t, m.rec(o, t), m.held(o, t), m.objs[o as usize].loose)
+    };
+    let cap_after = held - 1;
+    let p = parents();
+    let node = resolve_node(&p, o);
+    let need = rec > cap_after;
+    let un = !loose
+        && rec > 0
+        && match mode {
+            Mode::NoAdopt => false,
+            Mode::Full => true,
+            Mode::Elide => unadopt,
+            _ => unadopt || need,
+        };
+    if un {
+        let s = node.slots.borrow();
+        let slot_h = &s[j] as *const LoggedRc;
+        let ho = resolve_handle(&p, p[o as usize].unwrap());
+        do_unadopt(ho, slot_h, o, t);
+        let (_, zero) = wd.model.borrow_mut().sub_rec(o, t);
+        if zero {
+            label(lab::UNADOPT_ZERO);
+        }
+    } else if need && !loose {
+        label(lab::ELIDED);
+        if keep {
+            label(lab::KEPT_AFTER_ELIDE);
+        }
+    }
+    let h = node.slots.borrow_mut().remove(j);
+    h.owner.set(NONE);
+    wd.model.borrow_mut().objs[o as usize].slots.remove(j);
+    if keep {
+        wd.model.borrow_mut().roots.push(t);
+        wd.roots.borrow_mut().push(h);
+    } else {
+        drop(h);
     }
 }
 
